@@ -495,6 +495,71 @@ def writer_reader_agree(ctx: Ctx, v: LocalView, rule: str) -> int:
     return n
 
 
+def link_current_test(ctx: Ctx, v: LocalView, rule: str) -> int:
+    """An existing path entry is left alone only when it is known to designate the blob of THIS store: the test that
+    skips the (re)creation of a link must hold the comparison  <whole target of the entry> == <blob location term>."""
+    rep = ctx.report
+    m = v.m
+    m.expr_terms = {}
+    effs = m.effects_of("sync_paths")
+    n = 0
+    for e in _dedupe([x for x in effs if x.kind == "LINK"]):
+        target = e.src
+        loc = e.term
+        if unique_sources(loc):
+            ren = [r for r in effs if r.kind == "RENAME_INTO" and r.src == loc]
+            loc = ren[0].term if ren else strip_unique(loc)
+        for test, outcome in e.conds:
+            tt = m.expr_terms.get(id(test))
+            if tt is None or not contains(tt, lambda x: x == loc):
+                continue  # not a test about the existing entry
+            n += 1
+            desc = f"`{unparse(test, 70)}` leaves an existing entry alone only if its whole target is {show(target)}"
+            conj: List[ast.AST] = []
+
+            def split(t: ast.AST, pos: bool) -> bool:
+                """conjuncts that hold on the skipping outcome; False when the shape is not a conjunction there"""
+                if isinstance(t, ast.UnaryOp) and isinstance(t.op, ast.Not):
+                    return split(t.operand, not pos)
+                if isinstance(t, ast.BoolOp):
+                    if (isinstance(t.op, ast.And) and pos) or (isinstance(t.op, ast.Or) and not pos):
+                        return all(split(x, pos) for x in t.values)
+                    return False
+                conj.append(t if pos else ast.UnaryOp(op=ast.Not(), operand=t))
+                return True
+
+            skipping_outcome = not outcome  # the effect runs under `outcome`; the entry is left alone under the other one
+            if not split(test, skipping_outcome):
+                rep.unknown(rule, _site(v, "sync_paths"), f"up-to-date test `{unparse(test, 60)}` is not a conjunction on the skipping outcome", e.where())
+                continue
+            ok = False
+
+            def whole_cmp(at: Any) -> bool:
+                if isinstance(at, tuple) and at and at[0] == "cmp" and len(at) == 3:
+                    for x, y in ((at[1], at[2]), (at[2], at[1])):
+                        whole = (x == ("real", loc)) or (isinstance(x, tuple) and x[0] == "call" and any(isinstance(z, str) and z.endswith("readlink") for z in x[1:3])
+                                                          and loc in x[1:])
+                        if whole and (y == target or y == ("real", target)):
+                            return True
+                return False
+
+            for a in conj:
+                at = m.expr_terms.get(id(a))
+                if isinstance(a, ast.Compare) and len(a.ops) == 1 and isinstance(a.ops[0], ast.Eq) and whole_cmp(at):
+                    ok = True
+                elif isinstance(a, ast.Call) and contains(at, whole_cmp):
+                    ok = True  # a package helper whose (inlined) result holds the comparison
+            if ok:
+                rep.ok(rule, _site(v, "sync_paths"), desc, e.where())
+            else:
+                rep.bad(rule, _site(v, "sync_paths"), desc, e.where(),
+                        [f"{e.where()}: the entry {show(loc)} is kept when `{unparse(test, 80)}`", f"terms compared: {show(tt)}",
+                         "no conjunct compares the entry's whole target with the blob location of this store: an entry left by another (moved / removed) internal "
+                         "directory with the same key is taken for current, keep succeeds and the following load finds a dangling entry"],
+                        "link-current", what="a stale path entry pointing into another internal directory is not replaced")
+    return n
+
+
 def confined_destruction(ctx: Ctx, v: LocalView, rule: str) -> int:
     rep = ctx.report
     n = 0
